@@ -37,6 +37,8 @@ let body lines =
   try List.iter (fun l ->
     match words l with
     | ["new"; k; g; m] -> (match kind_of k with Some k -> do_op (ONew (k, ni g, ni m)) | None -> ())
+    | ["gnew"; g; m] -> do_op (helper_op HGuard (ni g) (ni m))               (* frg::guard(&m) *)
+    | ["gdefer"; g; m] -> do_op (helper_op HGuardDontLock (ni g) (ni m))    (* frg::guard(frg::dont_lock, &m) *)
     | ["defer"; k; g; m] -> (match kind_of k with Some k -> do_op (ODefer (k, ni g, ni m)) | None -> ())
     | ["adopt"; k; g; m] -> (match kind_of k with Some k -> do_op (OAdopt (k, ni g, ni m)) | None -> ())
     | ["empty"; k; g] -> (match kind_of k with Some k -> do_op (OEmpty (k, ni g)) | None -> ())
